@@ -110,6 +110,16 @@ def workload(tier, seed, scale=1.0):
 
 
 def stages(tier, seed):
+    from ..cross import cross_stages, portable
     cmds = workload(tier, seed)
     groups = [[c] for c in cmds]
-    return [dict(label='rel', variant='rel', groups=groups), dict(label='dbg', variant='dbg', groups=groups)]
+    st = [dict(label='rel', variant='rel', groups=groups), dict(label='dbg', variant='dbg', groups=groups)]
+    # the other cfg_digit! arm (32-bit digits: plain u32 iterator, chunked u64 iterator) and a big-endian target
+    rnd = rng_for(seed, 'C09x', tier)
+    pool = portable(cmds)
+    sub = rnd.sample(pool, min(len(pool), 500 if tier == 'quick' else 4000))
+    st += cross_stages('C09', sub, dict(label='x-rel', variant='rel'),
+                       [dict(label='miri-i686', variant='miri-i686', tool='miri:i686', shard_min=8, timeout=1500)] +
+                       ([dict(label='miri-s390x', variant='miri-s390x', tool='miri:s390x', shard_min=8, timeout=1500)] if tier != 'quick' else []),
+                       'exports / iterators must not depend on the digit width')
+    return st
